@@ -131,9 +131,12 @@ def render_l(prog, merged=False):
     flags = dict(prog.get('lex_section') or {})
     if merged:
         flags.update(prog.get('lex_api') or {})
-    o = [flag_section(flags) + "%%"]
+    o = [flag_section(flags) + "".join(l + "\n" for l in prog.get('lex_decls', [])) + "%%"]
     if flags.get('allow_wholeline_comments'):
         o.append("// a whole-line comment")
+    if prog.get('lex_lines'):
+        o += prog['lex_lines']
+        return "\n".join(o) + "\n"
     for name, rx, _ in prog['tokens']:
         o.append('%s "%s"' % (rx, name))
     for rx in prog['skip']:
@@ -283,9 +286,9 @@ def fam_flags(rng):
         extra_inputs = ["SeLeCt Foo 12", "SELECT x", "select ABC"]
     elif variant == "dot":
         where["dot_matches_new_line"] = rng.random() < 0.5
-        tokens = [("ANG", "<.*>", None)] + tokens
+        tokens = [("ANG", "~.*~", None)] + tokens
         skip = ["[ \\t\\n]+"]
-        extra_inputs = ["<a\nb> x", "<ab> select 1", "x <q\n\n> 2"]
+        extra_inputs = ["~a\nb~ x", "~ab~ select 1", "x ~q\n\n~ 2"]
     elif variant == "ml":
         where["multi_line"] = rng.random() < 0.5
         tokens = [("AEOL", "a$", None), ("A", "a", None), ("KW", "select", None), ("ID", "[b-z]+", None), ("INT", "[0-9]+", None)]
@@ -345,6 +348,39 @@ def fam_insert(rng):
                 extra_inputs=["let a 1 ;", "let a = 1", "let = 1 ;", "let a = 1 ; let b = ;", "a = 1 ;", "let a = = 1 ;"])
 
 
+def fam_states(rng):
+    """lexer with start states (exclusive or inclusive, push/pop/replace): the generated lexerdef()
+    re-creates the start states, the rules' start-state lists and target states"""
+    excl = rng.random() < 0.6
+    tokens = [("ID", "[a-z]+", None), ("INT", "[0-9]+", "number" if rng.random() < 0.5 else None), ("CW", "[a-z]+", None)]
+    if rng.random() < 0.5:
+        tokens.append(("OPEN", "\\[", None))
+        open_line = '<CMT,INITIAL>\\[ <+CMT>"OPEN"'
+    else:
+        open_line = '<CMT,INITIAL>\\[ <+CMT>;'
+    lines = ['<INITIAL>[a-z]+ "ID"', '[0-9]+ "INT"', open_line, '<CMT>\\] <-CMT>;', '<CMT>[a-z]+ "CW"',
+             '<CMT>[ \\t\\n]+ ;', '<INITIAL>[ \\t\\n]+ ;']
+    if rng.random() < 0.4:
+        lines.append('<CMT>! <INITIAL>;')                 # replace the whole stack
+    rng.shuffle(lines)
+    names = [t[0] for t in tokens]
+    rules = [("S", [{'syms': []}, {'syms': [('r', 'S'), ('r', 'W')]}]),
+             ("W", [{'syms': [('t', n)]} for n in names])]
+
+    def sentence(depth=0):
+        out = []
+        for _ in range(rng.randint(0, 4)):
+            r = rng.random()
+            if r < 0.4:
+                out.append(rng.choice(["ab", "z", "12", "7"]))
+            else:
+                out += ["["] + [rng.choice(["c", "dd", "[", "]", "e"]) for _ in range(rng.randint(0, 3))] + ["]"]
+        return out
+    return dict(family="states", tokens=tokens, skip=[], rules=rules, start="S", avoid_insert=[], sentence=sentence,
+                alphabet=["a", "1", "[", "]", "!"], lex_decls=["%%%s CMT" % ("x" if excl else "s")], lex_lines=lines,
+                extra_inputs=["a [ b [ c ] d ] 12", "a [ 1", "]", "[ x ! y", "[ [ ] ] ] a"])
+
+
 def fam_random(rng):
     for _ in range(50):
         g = grammars.reduced_random_grammar(rng, nrules=rng.randint(1, 4), ntoks=rng.randint(1, 4))
@@ -362,7 +398,7 @@ def fam_random(rng):
     return fam_list(rng)
 
 
-FAMILIES = [fam_expr, fam_list, fam_long, fam_flags, fam_insert, fam_random]
+FAMILIES = [fam_expr, fam_list, fam_long, fam_flags, fam_insert, fam_states, fam_random]
 
 
 def make_inputs(rng, fam, n):
